@@ -81,6 +81,19 @@ func validModules(r *rand.Rand, n int) *pbsubstreams.Modules {
 		initial = initChoices[r.Intn(len(initChoices))]
 	}
 	var maps, stores, indexes []string
+	// deep shape: every module reads the most recent producers (a chain of stacked diamonds), so that the dependency
+	// depth is close to the module count instead of logarithmic in it
+	deep := n >= 10 && r.Intn(3) == 0
+	recent := func(xs []string) string {
+		if deep {
+			k := len(xs) - 1 - r.Intn(2)
+			if k < 0 {
+				k = 0
+			}
+			return xs[k]
+		}
+		return xs[r.Intn(len(xs))]
+	}
 	for i := 0; i < n; i++ {
 		name := fmt.Sprintf("m%d", i)
 		if r.Intn(8) == 0 {
@@ -115,19 +128,22 @@ func validModules(r *rand.Rand, n int) *pbsubstreams.Modules {
 			}
 		}
 		nin := r.Intn(3)
+		if deep && i > 0 {
+			nin = 2
+		}
 		if len(m.Inputs) == 0 || (len(m.Inputs) == 1 && m.Inputs[0].GetParams() != nil) {
 			nin = 1 + r.Intn(2) // at least one input that carries data
 		}
 		for k := 0; k < nin; k++ {
 			switch {
 			case len(maps) > 0 && (isIndex || len(stores) == 0 || r.Intn(2) == 0):
-				m.Inputs = append(m.Inputs, mapInput(maps[r.Intn(len(maps))]))
+				m.Inputs = append(m.Inputs, mapInput(recent(maps)))
 			case len(stores) > 0 && !isIndex:
 				mode := pbsubstreams.Module_Input_Store_GET
 				if r.Intn(2) == 0 {
 					mode = pbsubstreams.Module_Input_Store_DELTAS
 				}
-				m.Inputs = append(m.Inputs, storeInput(stores[r.Intn(len(stores))], mode))
+				m.Inputs = append(m.Inputs, storeInput(recent(stores), mode))
 			default:
 				m.Inputs = append(m.Inputs, srcInput(testBlockType))
 			}
@@ -162,7 +178,7 @@ func modCount(r *rand.Rand) int {
 	case x < 18:
 		return 3 + r.Intn(10)
 	default:
-		return 10 + r.Intn(30)
+		return 10 + r.Intn(60)
 	}
 }
 
@@ -334,7 +350,22 @@ func mutateModules(r *rand.Rand, ms *pbsubstreams.Modules, outputName string) st
 		ms.Modules = append(ms.Modules, &pbsubstreams.Module{Name: "lonely"})
 		return "add-bare-module"
 	}
-	switch r.Intn(34) {
+	switch r.Intn(36) {
+	case 34:
+		// a block_filter message that is present but names no module (with or without a query)
+		m.BlockFilter = &pbsubstreams.Module_BlockFilter{}
+		if r.Intn(2) == 0 {
+			m.BlockFilter.Query = &pbsubstreams.Module_BlockFilter_QueryString{QueryString: "a"}
+		}
+		return "block-filter-without-module-name"
+	case 35:
+		// the same on the output module or one of its ancestors, where it cannot be ignored
+		for _, mm := range ms.Modules {
+			if mm.Name == outputName {
+				mm.BlockFilter = &pbsubstreams.Module_BlockFilter{Query: &pbsubstreams.Module_BlockFilter_QueryString{QueryString: "a || b"}}
+			}
+		}
+		return "output-block-filter-without-module-name"
 	case 0:
 		m.Kind = nil
 		return "kind-absent"
